@@ -45,6 +45,10 @@ fn strings(thorough: bool) -> Vec<Vec<u8>> {
     c.push(0);
     v.push(c);
   }
+  // inputs equal to the labels the derivations use internally (an input that aliases a domain separator)
+  for l in ["star_sample_local", "star_derive_randoms", "star_derive_ske_key", "star_encrypt", "adss encrypt", "random coins"] {
+    v.push(l.as_bytes().to_vec());
+  }
   v.sort();
   v.dedup();
   v
@@ -670,6 +674,68 @@ fn run_boundary_keys(cx: &mut CaseCx, case: &Value) {
   cx.outcome("boundary keys combinable");
 }
 
+
+/// MANY calls on ONE generator object (a client that reports the same measurement every few minutes): 600
+/// shares from one MessageGenerator - tag and key constant, evaluation points pairwise distinct, shares from far
+/// apart call numbers combine, randomness constant (also into a buffer that held the previous value)
+fn run_many_calls(cx: &mut CaseCx, case: &Value) {
+  let t = case["t"].as_u64().unwrap() as u32;
+  let m = b"https://example.com/many-calls".to_vec();
+  let e = b"epoch".to_vec();
+  let mg = MessageGenerator::new(SingleMeasurement::new(&m), t, &e);
+  let reference = MessageGenerator::new(SingleMeasurement::new(&m), t, &e).share_with_local_randomness().map(|w| (w.key, w.tag)).ok();
+  let r0 = rnd_of(&m, &e, t);
+  let mut buf = [0u8; 32];
+  let mut shares: Vec<sta_rs::Share> = vec![];
+  let mut xs: Vec<BigUint> = vec![];
+  for i in 0..600u32 {
+    getrandom::verif::set_group(i + 1);
+    mg.sample_local_randomness(&mut buf);
+    cx.eval();
+    if buf != r0 {
+      cx.viol("C04/many-calls/randomness-changed", format!("call number {} of sample_local_randomness on one generator gives another value", i + 1), json!({"call": i + 1, "t": t}));
+      return;
+    }
+    match guard(|| mg.share_with_local_randomness().map_err(|e| e.to_string())) {
+      Ok(Ok(w)) => {
+        if Some((w.key, w.tag)) != reference {
+          cx.viol("C04/many-calls/tag-or-key-changed", format!("call number {} of share_with_local_randomness on one generator gives another tag or key than an independent client", i + 1), json!({"call": i + 1, "t": t}));
+          return;
+        }
+        xs.push(share_x(&w.share.to_bytes()).unwrap_or_default());
+        shares.push(w.share);
+      }
+      other => {
+        cx.viol("C04/share-failed", format!("call number {} failed: {:?}", i + 1, other.map(|r| r.map(|_| ()))), json!({"call": i + 1}));
+        return;
+      }
+    }
+  }
+  let mut sx = xs.clone();
+  sx.sort();
+  sx.dedup();
+  if sx.len() != xs.len() {
+    let dup = (0..xs.len()).find(|&i| xs[..i].contains(&xs[i])).unwrap();
+    cx.viol("C04/share-points-not-distinct", format!("600 shares from one generator (fresh entropy each): call {} repeats the evaluation point of call {}", dup + 1, xs[..dup].iter().position(|x| *x == xs[dup]).unwrap() + 1), json!({"t": t, "call": dup + 1}));
+    return;
+  }
+  // shares from far-apart call numbers combine
+  for start in [0usize, 1, 255, 256, 257, 511, 598 - t as usize] {
+    let sel: Vec<sta_rs::Share> = (0..t as usize).map(|k| shares[(start + k * 97) % shares.len()].clone()).collect();
+    cx.eval();
+    match recover_msg(&sel) {
+      Ok(Ok(_)) => cx.count("far_apart_calls_combine", 1),
+      other => {
+        cx.viol("C04/not-combinable/many-calls", format!("shares from calls {}.. (stride 97) of one generator do not combine: {:?}", start + 1, other.map(|r| r.map(|_| ()))), json!({"t": t, "first_call": start + 1}));
+        return;
+      }
+    }
+  }
+  cx.count("calls_on_one_generator", 600);
+  cx.nontrivial(t as u64);
+  cx.outcome("many calls");
+}
+
 /// boundary search on internal values: the pairs of triples whose local randomness agree in the most leading /
 /// trailing bytes are processed back-to-back on one thread; each must come out as on a fresh thread
 fn run_near_collisions(cx: &mut CaseCx, _case: &Value) {
@@ -815,6 +881,13 @@ pub fn spec() -> PropSpec {
         },
         run: run_boundary_keys,
         min_counts: &[("boundary_keys_found", 30), ("boundary_combinable", 100)],
+      },
+      Check {
+        name: "many-calls",
+        rule: "600 consecutive sample_local_randomness + share_with_local_randomness calls on ONE MessageGenerator (t in {1,2,3}): randomness, tag and key constant and equal to an independent client's, all 600 evaluation points pairwise distinct, shares from far-apart call numbers (stride 97, starting at 1, 2, 256..258, 512, the end) combine",
+        gen: |_| [1u64, 2, 3].iter().map(|t| json!({"t": t})).collect(),
+        run: run_many_calls,
+        min_counts: &[("calls_on_one_generator", 1800), ("far_apart_calls_combine", 20)],
       },
       Check {
         name: "client-threads",
